@@ -1088,6 +1088,38 @@ def sym_eq(a, b):
     return bool(a == b)
 
 
+def sym_close(a, b, tol="1/1000000000"):
+    """a and b agree up to a relative tolerance (|a - b| <= tol * max(1, |a|, |b|)), element by element; None where the
+    structure is not numeric (the caller keeps its exact verdict).  Used by the real-number model: exact rational
+    arithmetic also sees differences of one unit in the last place that come from folding constants in floating point
+    (2.5e-06*2.5e-06 is 6.250000000000001e-12 in Python), which are outside the claim."""
+    if isinstance(a, (SymArr, tuple, list)) or isinstance(b, (SymArr, tuple, list)):
+        xa = a.items if isinstance(a, SymArr) else a
+        xb = b.items if isinstance(b, SymArr) else b
+        if not isinstance(xa, (tuple, list)) or not isinstance(xb, (tuple, list)) or len(xa) != len(xb):
+            return None
+        parts = [sym_close(x, y, tol) for x, y in zip(xa, xb)]
+        if any(p is None for p in parts):
+            return None
+        return z3_and(parts)
+    if isinstance(a, (bool, SymBool)) or isinstance(b, (bool, SymBool)):
+        return None
+    if not (isinstance(a, SymNum) or isinstance(b, SymNum)):
+        return None
+    try:
+        x, y = _coerce2(lift(a), lift(b))
+    except Unmodelled:
+        return None
+    if x.sort() != REAL:
+        return None
+    t = z3.RealVal(tol)
+    ax = z3.If(x >= 0, x, -x)
+    ay = z3.If(y >= 0, y, -y)
+    m = z3.If(ax >= ay, ax, ay)
+    m = z3.If(m >= 1, m, z3.RealVal(1))
+    return z3.And(x - y <= t * m, y - x <= t * m)
+
+
 def _is_plain_number(x):
     if isinstance(x, bool):
         return False
